@@ -239,7 +239,9 @@ def project(prop, b, ev, ctx):
             ai, _ = ev.ids()
             return (None, (ok, tuple(b.msgs), tuple((a.key, a.cls, a.size) for a in b.asks.values() if a.key in ai)))
         if is_exec:
-            return (ok, tuple(sorted((a.key, a.cls, a.size) for a in b.asks.values() if a.cls[0] == "ready")))
+            # the approval status of every ask (class assigned at creation included), and for approved asks the
+            # approver, the amount recorded and the remaining size
+            return (ok, tuple(sorted((a.key, a.cls, a.size if a.cls[0] == "ready" else None) for a in b.asks.values())))
     elif prop == "C09":
         if is_exec and sub == "create_bid":
             _, bi = ev.ids()
@@ -284,6 +286,62 @@ def project(prop, b, ev, ctx):
 # ---------------------------------------------------------------------------------------------------------
 # implementation-side oracles: evaluate the property text on the implementation's own observations
 # ---------------------------------------------------------------------------------------------------------
+def shadow_of(asks, bids):
+    """what an off-chain consumer tracks: open asks (remaining size, approval state), open bids (remaining size)"""
+    return (dict((k, (a.size, a.cls[0])) for k, a in asks.items()),
+            dict((k, x.rem_base) for k, x in bids.items() if isinstance(x, fmt.Bid)))
+
+
+def shadow_step(attrs, sh):
+    """the consumer of C17: one step from the attribute list alone (same function as Shadow.shadow_step in Coq)"""
+    asks, bids = dict(sh[0]), dict(sh[1])
+    at = dict(attrs)
+    act = at.get("action")
+
+    def num(name):
+        v = at.get(name)
+        return int(v) if v is not None and v.isdigit() else None
+
+    def reverse(book, pair):
+        i, n, o = at.get("id"), num("reverse_size"), at.get("order_open")
+        if i in book and n is not None and o is not None:
+            if o == "true":
+                book[i] = (book[i][0] - n, book[i][1]) if pair else book[i] - n
+            else:
+                del book[i]
+
+    def shrink(book, i, n, pair):
+        if i in book and n is not None:
+            left = (book[i][0] if pair else book[i]) - n
+            if left == 0:
+                del book[i]
+            else:
+                book[i] = (left, book[i][1]) if pair else left
+    if act == "create_ask":
+        i, n, cl = at.get("id"), num("size"), at.get("class")
+        if i is not None and n is not None and cl is not None:
+            asks[i] = (n, "basic" if cl == '"Basic"' else "pending" if "PendingIssuerApproval" in cl else "ready")
+    elif act == "create_bid":
+        i, n = at.get("id"), num("size")
+        if i is not None and n is not None:
+            bids[i] = n
+    elif act == "approve_ask":
+        i = at.get("id")
+        if i in asks:
+            asks[i] = (asks[i][0], "ready")
+    elif act == "cancel_ask":
+        asks.pop(at.get("id"), None)
+    elif act in ("expire_ask", "reject_ask"):
+        reverse(asks, True)
+    elif act in ("cancel_bid", "expire_bid", "reject_bid"):
+        reverse(bids, False)
+    elif act == "execute":
+        n = num("size")
+        shrink(asks, at.get("ask_id"), n, True)
+        shrink(bids, at.get("bid_id"), n, False)
+    return (asks, bids)
+
+
 class Oracle:
     """Folds over the blocks of one history of an implementation trace and reports property failures as
     (property, class_tag, message).  class_tag names the known class when the failing step falls in one."""
@@ -580,8 +638,12 @@ class Oracle:
         # ---- C06: exit probes
         if k == "PEXEC" and ev.sub in ("cancel_ask", "cancel_bid", "expire_ask", "expire_bid") and clean:
             ai, bi = ev.ids()
+            o = self.asks.get(ai[0]) if ai else self.bids.get(bi[0]) if bi else None
+            entitled = (isinstance(o, (fmt.Ask, fmt.Bid)) and not ev.funds and self.cfg is not None and
+                        (ev.sender == o.owner if ev.sub.startswith("cancel") else ev.sender in self.cfg.executors))
             if not b.ok:
-                out.append(("C06", None, "%s of an open order refused: %s" % (ev.sub, fmt.dec(b.err or "~"))))
+                if entitled:
+                    out.append(("C06", None, "%s of an open order refused: %s" % (ev.sub, fmt.dec(b.err or "~"))))
             else:
                 fl = dict(flows(b, ev))
                 if ai:
@@ -602,6 +664,16 @@ class Oracle:
                         got = dict((kk, v) for kk, v in fl.items() if kk[0] != SELF)
                         if got != want or bi[0] in b.bids:
                             out.append(("C06", None, "bid exit did not return the whole escrow"))
+        # ---- C17: a shadow book kept in step with the attributes alone never diverges from the book
+        if b.ok and k in ("EXEC", "PEXEC") and b.has_dump and not self.seeded and not self.migration:
+            try:
+                want = shadow_of(b.asks, b.bids)
+                got = shadow_step(b.attrs, shadow_of(self.asks, self.bids))
+                if got != want:
+                    diff = sorted(set(got[0].items()) ^ set(want[0].items())) + sorted(set(got[1].items()) ^ set(want[1].items()))
+                    out.append(("C17", None, "attribute-driven shadow book diverges from the book after %s: %s" % (ev.sub, diff[:3])))
+            except Exception:
+                pass
         # ---- C17: attributes of accepted executes
         if b.ok and k in ("EXEC", "PEXEC"):
             at = dict(b.attrs)
@@ -673,7 +745,10 @@ class Oracle:
                             out.append(("C02", None, "match pays %s, who is no party to it" % acct))
                     roles = [b0.owner, seller] + ([self.cfg.ask_fee[0]] if self.cfg.ask_fee else []) + \
                         ([self.cfg.bid_fee[0]] if self.cfg.bid_fee else [])
-                    distinct = len(set(roles)) == len(roles)
+                    # per-(account, denomination) sums can only be told apart when the parties are distinct and the
+                    # quote denomination is neither the base nor the ask's denomination; overlapping cases are left
+                    # to the model (exact in all of them)
+                    distinct = len(set(roles)) == len(roles) and q not in (self.cfg.base, a0.base)
                     if distinct and p is not None and bp is not None:
                         gross = p * s
                         if fl.get((b0.owner, self.cfg.base), 0) != s:
@@ -762,6 +837,9 @@ class Oracle:
             for a in b.asks.values():
                 if a.size < 1 or (a.cls[0] == "basic") != (self.cfg is not None and a.base == self.cfg.base):
                     out.append(("C11", None, "ask %s inconsistent (size %d, class %s, base %s)" % (a.key[:8], a.size, a.cls[0], a.base)))
+                if (a.cls[0] == "basic") != (self.cfg is not None and a.base == self.cfg.base):
+                    out.append(("C08", None, "ask %s selling %s is %s: plain asks are exactly those selling the base denomination"
+                                % (a.key[:8], a.base, a.cls[0])))
                 if a.cls[0] == "ready" and a.cls[3] != a.size:
                     out.append(("C08", None, "ask %s: approver amount %d, remaining size %d" % (a.key[:8], a.cls[3], a.size)))
         # ---- C04 / C06: an exit whose payout uses the wrong mechanism is rejected by the chain
